@@ -28,6 +28,7 @@ from fractions import Fraction
 import common
 import sched
 import fakeaudio
+from props import c17_tr
 
 ID = "C17"
 RULE = ("every schedule with <= B pre-emptions (one player: B=2 quick, 3 thorough; two players: B=2; three players: B=1 quick, "
@@ -51,19 +52,37 @@ RULE = ("every schedule with <= B pre-emptions (one player: B=2 quick, 3 thoroug
         "record / take / stop / close, 1-4 streams, takes past the end, calls after close).  Mixed histories (entry mix: "
         "MIX_FAMILIES x wait in {T,F}, every schedule with <= 2 pre-emptions, plus random walks over random mixed scripts): "
         "record() calls, play calls whose pa.open raises, a terminate() that raises, in the same history as 1-3 player threads "
-        "with pause / resume / stop / join and one or two close calls")
+        "with pause / resume / stop / join and one or two close calls.  Translator self-test: the skeleton extractor run on 8 "
+        "edited copies of the source text (go.set -> go.clear, swapped statements, changed guard, dropped finally, operation "
+        "moved out of its with-block, join before stop, start before append, unknown call) must give a different Gen text or "
+        "a TranslationError; comment / local-name edits must give the same text")
 TRUSTED = [
     "hand-written Lean transition system ALV/Model/C17.lean of AudioIO.play/close/thread_finished and "
     "AudioThread.run/stop/pause/play (modelled, not verified); atomicity = one threading/backend operation plus the "
-    "local code up to the next one; the variant of stop() (Cfg.fixed) is probed from the source under test — on the "
-    "repaired source the liveness theorems that apply are the ones with cfg.fixed = true.  An iterable that raises (or "
+    "local code up to the next one; the variant of stop() / run() (Cfg.fixed) is READ from the regenerated skeleton "
+    "(below; the old behavioural probe is kept as a cross-check) — on the "
+    "repaired source the liveness theorems that apply are the ones with cfg.fixed = true (src_shutdown).  An iterable that raises (or "
     "a backend write that raises) is the step `write` with nothing left and `fail` set (Cfg.fails by player index)",
     "fine-grained cases: hand-written ALV/Model/C17Fine.lean (chunk assembly: one pull per step, buffer per player; "
     "both chunking strategies have this shape) tied step by step; proved to refine the coarse system, raising iterables "
     "included when run has its try/finally (fine_refines under Sound); played objects are wrapped in props/c17.py:Hooked "
     "(a yield point before each item is handed over; the wrapped object itself — list, Stream.copy() copy, thub copy — is "
     "advanced atomically); which variant of `run` (exception leaves the loop with / without the epilogue: FCfg.dieFixed) "
-    "is probed from the source under test",
+    "is read from the regenerated skeleton of run()",
+    "translator harness/props/c17_tr.py (ast -> lean/ALV/Gen/C17Src.lean, regenerated on every check): trusted are (1) the "
+    "vocabulary mapping from source expressions to Skel operations (self.lock of AudioIO = manager lock, of AudioThread = "
+    "the thread's own lock; self.halting of AudioIO = the close lock, of AudioThread = the stop flag; a local bound to "
+    "_threads[0] / AudioThread(...) is a thread, one bound to _recordings[-1] a recording stream; write_stream(st, chunk, "
+    "self.chunk_size, False) = one backend write), (2) the subset semantics assumed: statements run in source order, a "
+    "`with <lock>:` acquires on entry and releases on every exit, `try … finally` runs its finally on every exit, the "
+    "listed operations are the only ones of these methods that touch a shared object — every other statement must be made "
+    "of whitelisted shapes and mention none of the synchronisation names (c17_tr.SYNC_NAMES), else TranslationError; (3) "
+    "ALV.C17.yieldsWith as the reading of WHICH operations are yield points and which locks are held there.  What the "
+    "src_* theorems give: the regenerated skeleton is the documented one (decide), the model's program counters are its "
+    "yield points in source order with the same held locks, enabledness of every step is the one of its yield point, the "
+    "switches are read from it.  NOT given: that stepPlayer / stepMain are an interpretation of the skeleton's control flow "
+    "(successor of each program counter under each guard) — that part stays hand written, tied by the step-by-step replay; "
+    "any change of a guard or of the order still breaks src_skeleton_is_documented",
     "call shapes: ALV/Spec/C17.lean PlayCall / openArgs / frames / samplesPerChunk are a hand-written reading of "
     "AudioThread.__init__ (defaults, _STRUCT2PYAUDIO, the setdefault of output_device_index); the driver resolves the "
     "call as written with them (the chunk size of the modelled play IS samplesPerChunk) and the harness compares the "
@@ -152,14 +171,21 @@ MANIFEST = {
             "check, with scheduler-aware played iterables, both chunking strategies, 1..3 players, call-shape and sample-"
             "spelling variety, backend writes / opens that raise, with-blocks left by an exception, recording histories",
     "note": "Trusted: Lean kernel, axioms propext/Classical.choice/Quot.sound, harness/sched.py + harness/fakeaudio.py "
-            "(CPython threading semantics assumed); the models are hand written and validated against the code step by "
-            "step along every explored schedule / call by call along every recording history, not extracted from it.  No "
+            "(CPython threading semantics assumed); the step functions of the models are hand written and validated against "
+            "the code step by step along every explored schedule / call by call along every recording history; the "
+            "synchronisation skeleton they follow (operations, order, lock nesting, guards, try/finally) and the two variant "
+            "switches are extracted from the source on every run (translator c17_tr.py, theorems src_*).  No "
             "PENDING statement.  Known findings excluded by explicit hypotheses / recognised signatures: wait=True with a "
             "paused player (D10b), the last lock release of a player that left _threads before close looked (D15).  "
             "D26 (close / take with two active recording streams raised TypeError) is repaired in /repo (c60d4c5) and "
             "compared strictly.",
     "technique": "interleaving transition system in Lean 4 with inductive invariants over all schedules and a ranking "
-                 "function for termination; step-by-step bisimulation against the real code under a deterministic scheduler",
+                 "function for termination; TRANSLATOR harness/props/c17_tr.py: the synchronisation skeleton of the 11 anchored "
+                 "methods of AudioIO / AudioThread is regenerated from lazy_io.py with ast on every check as a Lean value "
+                 "(ALV/Gen/C17Src.lean, deep embedding ALV.C17.Skel) and the src_* theorems re-check (decide) that it is the "
+                 "skeleton the model documents, that the model's program counters are its yield points with the same held "
+                 "locks, and read the model's switches Cfg.fixed / FCfg.dieFixed from it; step-by-step bisimulation against "
+                 "the real code under a deterministic scheduler",
 }
 
 BUDGET = 300
@@ -619,11 +645,24 @@ def run_case(c, pinned=False):
     return obs
 
 
-def variant():
+def _switches():
+    """the model's switches as the translator reads them from the source under test ({} when it does not translate)"""
+    global _switch_cache
+    if _switch_cache is None:
+        try:
+            _switch_cache = c17_tr.switches()
+        except Exception:
+            _switch_cache = {}
+    return _switch_cache
+
+
+_switch_cache = None
+
+
+def probe_variant():
     """Which `stop()` does the source under test have?  Probed from its behaviour: the event
-    operation stop() issues under the thread's lock (`go.clear()` today, `go.set()` once
-    proposed_fixes/D10-close-paused.diff is applied).  Everything else is still checked step by
-    step against the model of the chosen variant."""
+    operation stop() issues under the thread's lock (`go.clear()` as first coded, `go.set()` since
+    proposed_fixes/D10-close-paused.diff is applied)."""
     global _variant
     if _variant is None:
         o = run_case({"script": [["play", 0], ["stop", 0]], "wait": False, "cs": 2, "schedule": []})
@@ -633,7 +672,7 @@ def variant():
     return _variant
 
 
-def die_variant():
+def probe_die_variant():
     """What does `AudioThread.run` do when the played iterable raises?  Probed from the behaviour:
     "as-coded" = the exception leaves `run` at once (no epilogue: the device stream stays open, the
     thread stays in `_threads`); "fixed" = the epilogue still runs (`try … finally`,
@@ -647,6 +686,26 @@ def die_variant():
                 for p in s.split("|")[1].split(",") if p.startswith("1:")]
         _die_variant = "fixed" if "tlock0.acq" in mine else "as-coded"
     return _die_variant
+
+
+def variant():
+    """`Cfg.fixed` of the requests: READ from the regenerated synchronisation skeleton of stop() / run() (translator
+    harness/props/c17_tr.py; the Lean reader is ALV.C17.variantOf, theorem src_variant_is_modelled).  Only when the source
+    does not translate, or is neither variant of the model (then an obligation is broken anyway), the old behavioural
+    probe chooses the variant the replay is compared with, so that the failing-input search still has a model to run."""
+    v = _switches().get("fixed")
+    if v is None:
+        return probe_variant()
+    return "fixed" if v else "as-coded"
+
+
+def die_variant():
+    """`FCfg.dieFixed` of the requests: read from the skeleton of run() (is the loop inside `try … finally` with the
+    epilogue as its `finally`; Lean reader ALV.C17.dieVariantOf); fallback as for `variant`."""
+    v = _switches().get("dieFixed")
+    if v is None:
+        return probe_die_variant()
+    return "fixed" if v else "as-coded"
 
 
 # ------------------------------------------------------------------------------------------
@@ -1927,9 +1986,32 @@ def failed_open_checks():
     return out
 
 
+def regenerate(eng=None):
+    """translator: lean/ALV/Gen/C17Src.lean from <repo>/audiolazy/lazy_io.py (harness/props/c17_tr.py)"""
+    return c17_tr.regenerate(eng)
+
+
 def extra_checks(eng):
     v = variant()
     eng.count("variant_probe", v)
+    sw = _switches()
+    eng.extra["translated"] = {
+        "translator": "harness/props/c17_tr.py -> lean/ALV/Gen/C17Src.lean (deep embedding: ALV.C17.Skel)",
+        "under_the_translator": ["%s.%s" % m for m in c17_tr.METHODS],
+        "theorems": ["src_skeleton_is_documented", "src_variant_is_modelled", "src_run_is_model", "src_play_is_model",
+                     "src_close_is_model", "src_ctl_is_model", "src_yields_drive_the_steps", "src_shutdown"],
+        "switches_read_from_the_source": sw,
+        "not_translated": c17_tr.NOT_TRANSLATED,
+    }
+    for item in c17_tr.selftest():
+        yield item
+    yield ("the switches read from the skeleton are a variant of the model (Cfg.fixed, FCfg.dieFixed)",
+           sw.get("fixed") is not None and sw.get("dieFixed") is not None, repr(sw))
+    pv, pd = probe_variant(), probe_die_variant()
+    ok = (sw.get("fixed") is None or pv == ("fixed" if sw["fixed"] else "as-coded")) and \
+         (sw.get("dieFixed") is None or pd == ("fixed" if sw["dieFixed"] else "as-coded"))
+    yield ("the behavioural probes agree with the switches read from the skeleton", ok,
+           "probe stop()=%s die=%s; skeleton %r" % (pv, pd, sw))
     for item in failed_open_checks():
         yield item
     mod = lazy_io()
